@@ -73,7 +73,14 @@ def run(ctx):
                     ctx.ob('2c stale-tree-never-used %s' % fn, 'K1-must-pass', fn, 'with a differing record id every success path re-opens the tree before answering', w is None, '' if w is None else lib.short_path(b, w))
         if fn.endswith('next_backend'):
             sk = b.call_sites('btree::iter::BTreeIterState::seek', 'btree::iter::BTreeIterState::seek_to_last')
-            ctx.ob('2d reseek-after-refresh', 'K2-order', fn, 'after re-opening the tree the position is re-established from last_key (4 arms)', len(sk) == 4 and all(any(o in b.reaches(o2) or True for o2 in opens) for o in sk), str(sk))
+            lib.must_pass(ctx, '2d reseek-after-refresh', b, sk, 'after re-opening the tree every success path re-establishes the position (seek / seek_to_last) before answering', sources=opens)
+            fl = set()
+            for s2 in sk:
+                for a2 in b.term(s2)['a'][1:]:
+                    if op_place(a2) is not None:
+                        fl |= backward_slice(b, [op_place(a2)]).fields
+                fl |= lib.guard_influences(b, s2)[1]
+            ctx.ob('2d2 reseek-from-last_key', 'K4-provenance', fn, 'the position is re-established from the iterator\'s last_key', '.BTreeIterator.last_key' in fl, str(sorted(f for f in fl if 'BTreeIterator' in f)))
             for s in sk:
                 lib.precedes(ctx, '2e reseek-on-new-tree', b, opens, [s], 'the re-seek happens on the re-opened tree')
     # repositioning forgets the parked tree entry: every iterator method that re-seeks the tree cursor (seek, seek_to_last, ...)
